@@ -325,6 +325,9 @@ func (g *Gen) Target() *GConf {
 	return c
 }
 
+// DedupLines is dedupLines for other packages.
+func DedupLines(lines []string, ios bool) []string { return dedupLines(lines, ios) }
+
 // dedupLines removes entries that equal an earlier one up to log options.
 func dedupLines(lines []string, ios bool) []string {
 	seen := map[string]bool{}
@@ -566,7 +569,7 @@ func (g *Gen) Device(t *GConf, nedits int, unmanaged bool) (*GConf, []string) {
 				a := d.ACLs[g.Rng.Intn(len(d.ACLs))]
 				if len(a.Lines) > 4 {
 					for n := 3 + g.Rng.Intn(3); n > 0; n-- {
-						g.lineEdit(d, a)
+						g.LineEdit(d, a)
 					}
 					a.Lines = dedupLines(a.Lines, g.Kind == "ios")
 					ops = append(ops, "acl-dense-edits")
@@ -606,8 +609,8 @@ func (g *Gen) Device(t *GConf, nedits int, unmanaged bool) (*GConf, []string) {
 	return d, ops
 }
 
-// lineEdit applies one random line level edit to ACL a of device d.
-func (g *Gen) lineEdit(d *GConf, a *GACL) {
+// LineEdit applies one random line level edit to ACL a of device d.
+func (g *Gen) LineEdit(d *GConf, a *GACL) {
 	action := func(l string) string { return strings.Fields(l)[0] }
 	switch g.Rng.Intn(4) {
 	case 0: // extra line on device
